@@ -237,6 +237,14 @@ def run_case(sh, s, d, case):
         c.root()['g'] = real[0]
         for k in added:
             c.add(real[k])
+    pre_export = None
+    if early_weak == 0 and random.Random(s + 31).random() < 0.4:
+        # the copy idiom: an (optimistic) savepoint, then exportFile() inside the transaction - the export must hold what the
+        # connection sees, new and changed objects included
+        import io as _io
+        tm.savepoint(True)
+        pre_export = _io.BytesIO()
+        c.exportFile(real[0]._p_oid, pre_export)
     tm.commit()
     sh.count('graphs')
     sh.count('weak_refs_to_new_objects', early_weak)
@@ -482,59 +490,74 @@ def run_case(sh, s, d, case):
         import io
         f = io.BytesIO()
         cb.exportFile(oid_of[0], f)
-        f.seek(0)
-        ist = ZODB.MappingStorage.MappingStorage()
-        imode, inew = hostile_oids(random.Random(s + 3))
-        ist.new_oid = inew
-        idb = ZODB.DB(ist)
-        itm = transaction.TransactionManager()
-        ic = idb.open(itm)
-        itm.begin()
-        io_root = ic.importFile(f)
-        ic.root()['imported'] = io_root
-        itm.commit()
-        sh.count('export_import_roundtrips')
-        # compare by payload markers: marker -> sorted markers of strong targets
-        by_marker = {}
-        seen = set()
-        todo = [io_root]
-        ok = True
-        while todo:
-            o = todo.pop()
-            if o._p_oid in seen:
-                continue
-            seen.add(o._p_oid)
-            kd = 'plist' if isinstance(o, PersistentList) else 'pmap' if isinstance(o, PersistentMapping) else 'cell'
-            m = payload_of(o, kd)
-            tg = []
-            cbsave = cb
 
-            def walk2(v):
-                if isinstance(v, persistent.Persistent):
-                    tg.append(v)
-                elif isinstance(v, (list, tuple, set, frozenset)):
-                    for x in v:
-                        walk2(x)
-                elif isinstance(v, dict):
-                    for x in v.values():
-                        walk2(x)
-            vals = ([v for (n, v) in list(o)[1:]] if kd == 'plist' else [v for n, v in o.items() if n != 'payload'] if kd == 'pmap'
-                    else list(o.refs.values()))
-            for v in vals:
-                walk2(v)
-            by_marker[m] = sorted(payload_of(t, 'plist' if isinstance(t, PersistentList) else 'pmap' if isinstance(t, PersistentMapping) else 'cell')
-                                  for t in tg)
-            todo.extend(tg)
-        exp_map = {nodes[k]['marker']: sorted(nodes[t]['marker'] for (ek, f2, t) in nodes[k]['edges'] if ek == 'strong')
-                   for k in closure([0])}
-        if by_marker != exp_map:
-            bad = sorted(m for m in set(by_marker) | set(exp_map) if by_marker.get(m) != exp_map.get(m))[:3]
-            sh.violation('c14:imported-graph-differs-from-exported-graph', dict(wit, markers=bad, import_oid_mode=imode), case)
+        def roundtrip(f, label):
+            f.seek(0)
+            ist = ZODB.MappingStorage.MappingStorage()
+            imode, inew = hostile_oids(random.Random(s + 3))
+            ist.new_oid = inew
+            idb = ZODB.DB(ist)
+            itm = transaction.TransactionManager()
+            ic = idb.open(itm)
+            itm.begin()
+            io_root = ic.importFile(f)
+            if io_root is None:
+                itm.abort()
+                ic.close()
+                idb.close()
+                sh.violation('c14:export-holds-no-record-of-the-exported-object' + label, dict(wit), case)
+                return False
+            ic.root()['imported'] = io_root
+            itm.commit()
+            sh.count('export_import_roundtrips')
+            # compare by payload markers: marker -> sorted markers of strong targets
+            by_marker = {}
+            seen = set()
+            todo = [io_root]
+            ok = True
+            while todo:
+                o = todo.pop()
+                if o._p_oid in seen:
+                    continue
+                seen.add(o._p_oid)
+                kd = 'plist' if isinstance(o, PersistentList) else 'pmap' if isinstance(o, PersistentMapping) else 'cell'
+                m = payload_of(o, kd)
+                tg = []
+                cbsave = cb
+
+                def walk2(v):
+                    if isinstance(v, persistent.Persistent):
+                        tg.append(v)
+                    elif isinstance(v, (list, tuple, set, frozenset)):
+                        for x in v:
+                            walk2(x)
+                    elif isinstance(v, dict):
+                        for x in v.values():
+                            walk2(x)
+                vals = ([v for (n, v) in list(o)[1:]] if kd == 'plist' else [v for n, v in o.items() if n != 'payload'] if kd == 'pmap'
+                        else list(o.refs.values()))
+                for v in vals:
+                    walk2(v)
+                by_marker[m] = sorted(payload_of(t, 'plist' if isinstance(t, PersistentList) else 'pmap' if isinstance(t, PersistentMapping) else 'cell')
+                                      for t in tg)
+                todo.extend(tg)
+            exp_map = {nodes[k]['marker']: sorted(nodes[t]['marker'] for (ek, f2, t) in nodes[k]['edges'] if ek == 'strong')
+                       for k in closure([0])}
+            if by_marker != exp_map:
+                bad = sorted(m for m in set(by_marker) | set(exp_map) if by_marker.get(m) != exp_map.get(m))[:3]
+                sh.violation('c14:imported-graph-differs-from-exported-graph' + label, dict(wit, markers=bad, import_oid_mode=imode), case)
+                ic.close()
+                idb.close()
+                return False
             ic.close()
             idb.close()
+            return True
+        if not roundtrip(f, ''):
             return None
-        ic.close()
-        idb.close()
+        if pre_export is not None:
+            sh.count('exports_made_inside_the_transaction_after_a_savepoint')
+            if not roundtrip(pre_export, ':exported-inside-the-transaction-after-a-savepoint'):
+                return None
     # ---- the whole history once more with every all-ASCII oid pickled as text (Python 2 form): same graph when loaded
     if not xdb and any(max(o) < 0x80 for o in recs):
         lst = FSM.FileStorage(os.path.join(d, 'legacy.fs'))
